@@ -18,9 +18,9 @@ type Output struct {
 func streams(prop string) []string {
 	switch prop {
 	case "c03":
-		return []string{"finding:lockkey.separator"}
+		return []string{"finding:lockkey.separator", "finding:upsert.pk-listed.unique-changed"}
 	case "c18":
-		return []string{"finding:where.node.func", "finding:where.string-literal", "finding:insert.pk-null-or-zero", "finding:insert.auto-batch"}
+		return []string{"finding:where.node.func", "finding:where.string-literal", "finding:insert.pk-null-or-zero", "finding:insert.auto-batch", "finding:upsert.pk-listed.unique-changed"}
 	}
 	return nil
 }
